@@ -70,9 +70,13 @@ pub trait ExRead {
 
     spec fn rest(&self) -> Seq<u8>;
 
+    /// a source that never fails while bytes remain (in-memory Cursor); arbitrary sources leave this false
+    spec fn reliable(&self) -> bool;
+
     fn read_exact(&mut self, buf: &mut [u8]) -> (r: std::io::Result<()>)
         ensures
             final(buf)@.len() == old(buf)@.len(),
+            old(self).reliable() ==> final(self).reliable() && (r is Ok <==> old(self).rest().len() >= old(buf)@.len()),
             r is Ok ==> old(self).rest().len() >= old(buf)@.len()
                 && final(buf)@ == old(self).rest().subrange(0, old(buf)@.len() as int)
                 && final(self).rest() == old(self).rest().subrange(old(buf)@.len() as int, old(self).rest().len() as int),
@@ -81,6 +85,7 @@ pub trait ExRead {
     fn read(&mut self, buf: &mut [u8]) -> (r: std::io::Result<usize>)
         ensures
             final(buf)@.len() == old(buf)@.len(),
+            old(self).reliable() ==> final(self).reliable() && r is Ok,
             r is Ok ==> r->Ok_0 <= old(buf)@.len() && r->Ok_0 <= old(self).rest().len()
                 && final(buf)@.subrange(0, r->Ok_0 as int) == old(self).rest().subrange(0, r->Ok_0 as int)
                 && final(self).rest() == old(self).rest().subrange(r->Ok_0 as int, old(self).rest().len() as int)
